@@ -20,7 +20,7 @@ ID = "C16"
 LEVEL = "model_checking"
 FUNCTIONS = ["BatteryStatusTracker.__init__", "BatteryStatusTracker._run (dispatch loop)", "_handle_status_battery/_inverter/_set_power_result/_battery_timer/_inverter_timer",
              "_get_current_status/_get_new_status_if_changed", "_is_message_reliable/_is_timestamp_outdated/_is_battery_state_correct/_is_inverter_state_correct/"
-             "_no_critical_error/_is_capacity_present", "BlockingStatus.block/unblock/is_blocked", "ComponentPoolStatus.get_working_components"]
+             "_no_critical_error/_is_capacity_present", "BlockingStatus.block/unblock/is_blocked", "ComponentPoolStatus.get_working_components", "ComponentPoolStatusTracker._update_status/get_working_components"]
 SHIMS = ["datetime.now() in _battery_status_tracker and _blocking_status returns the harness clock (arbitrary non-decreasing symbolic instant)",
          "frequenz.channels select()/selected_from()/Timer are replaced by a harness source that yields the symbolic event sequence; contract of the stand-in timer: "
          "it fires only when now - last_reset >= max_data_age, it is periodic, and no other event is delivered while a timer is overdue (not starved)",
@@ -241,10 +241,65 @@ def make(K, healthy_only=False, reach=False):
     return fn
 
 
+def make_pool(K, reach=False):
+    """ComponentPoolStatusTracker._update_status fed a symbolic sequence of per-battery status notifications for 2 batteries."""
+    from frequenz.sdk.microgrid._power_distributing._component_pool_status_tracker import ComponentPoolStatusTracker
+    from frequenz.sdk.microgrid._power_distributing._component_status import ComponentStatus
+    import copy
+
+    VALS = [St.NOT_WORKING, St.UNCERTAIN, St.WORKING]
+    IDS = [9, 19]
+
+    def fn(ex):
+        msgs = [ComponentStatus(IDS[ex.choice(f"who{k}", 2)], VALS[ex.choice(f"status{k}", 3)]) for k in range(K)]
+        sent = []
+
+        class Sender:
+            async def send(self, m):
+                sent.append(copy.deepcopy(m))
+
+        class Rx:
+            def __aiter__(self):
+                self.it = iter(msgs)
+                return self
+
+            async def __anext__(self):
+                try:
+                    return next(self.it)
+                except StopIteration:
+                    raise StopAsyncIteration from None
+        t = ComponentPoolStatusTracker.__new__(ComponentPoolStatusTracker)
+        t._current_status = ComponentPoolStatus(working=set(), uncertain=set())
+        t._merged_status_receiver = Rx()
+        t._component_status_sender = Sender()
+        coro = t._update_status()
+        try:
+            coro.send(None)
+            raise core.HarnessError("pool tracker suspended unexpectedly")
+        except StopIteration:
+            pass
+        if reach:
+            ex.check(False, "reach")
+            return
+        ex.check(len(sent) == K, "one pool status per component notification expected")
+        ref = {}
+        for k, (m, out) in enumerate(zip(msgs, sent)):
+            ref[m.component_id] = m.value
+            w = {i for i, v in ref.items() if v == St.WORKING}
+            u = {i for i, v in ref.items() if v == St.UNCERTAIN}
+            ex.check(out.working == w and out.uncertain == u, f"pool status after notification {k}: working={out.working} uncertain={out.uncertain}, expected {w} / {u}")
+            for req in ({9}, {19}, {9, 19}):
+                exp = (w & req) or (u & req)
+                ex.check(out.get_working_components(req) == exp, f"get_working_components({req}) after notification {k}")
+        ex.check(t.get_working_components({9, 19}) == ((w & {9, 19}) or (u & {9, 19})), "tracker.get_working_components")
+    return fn
+
+
 def instances(tier):
     I = Instance
     out = [I("reach:block3", "make", (3, True, True), "reachability twin (reaches UNCERTAIN)", budget_s=100, validate_every=0),
-           I("events-3", "make", (3,), "3 arbitrary events", budget_s=200, validate_every=200)]
+           I("events-3", "make", (3,), "3 arbitrary events", budget_s=200, validate_every=200),
+           I("pool-4", "make_pool", (4,), "ComponentPoolStatusTracker: every sequence of 4 status notifications from 2 batteries", budget_s=200, validate_every=50)]
     if tier == "quick":
         out += [I("events-4", "make", (4,), "4 arbitrary events", budget_s=600, validate_every=2000),
                 I("blocking-5", "make", (5, True), "healthy fresh data, 5 events out of {message, success, failure, not mentioned}", budget_s=300, validate_every=500)]
